@@ -27,7 +27,10 @@ def run(ctx, replay=None):
                 "thermodynamics object that logs the temperature of every table it is asked to build: KWN_Trace.tla keeps the per-phase table "
                 "stamp, predicts with the same Refresh operator when a rebuild is due, and requires T_row = schedule(t_row), "
                 "|T_row - stamp| <= maxTempChange, a full rebuild at T_row when due, and the accumulator value. "
-                "(C) equivalent specifications (constant / break points / function, constructor object / setter) are run as pairs and compared step by step.")
+                "(C) equivalent specifications (constant / break points / function, constructor object / setter) are run as pairs and compared step by step. "
+                "(D) diffusion models (SinglePhaseModel with a backend that logs the temperature of every diffusivity request): every request of a step is made at the "
+                "schedule's value at one of the step's stage times, the first at the step's start; schedules that rise, fall, start after zero, and runs that go on past the last break point; "
+                "constructor / setter / equivalent function give the same run (Relations.tla).")
     ctx.assumptions = ["temperatures compared in milli-kelvin; accumulator within 2 mK"]
     def corrupt(ev):
         for e in ev:
@@ -38,6 +41,26 @@ def run(ctx, replay=None):
     judge(ctx, ["C13:"])
     from .. import kwn_pairs as P
     judge_pairs(ctx, [(a, b, None, 0.0, [], label) for (a, b, label) in P.temperature_pairs()], "tempspec")
+    diffusion_part(ctx)
+
+
+def diffusion_part(ctx):
+    """(D) the diffusion models: every diffusivity request of a step is made at the schedule's value at one of the step's stage times"""
+    from .. import difftemp_drv as D
+    ev = D.relations(ctx.tier)
+    reached, r = T.validate("Relations", [], [ev], "c13_difftemp")
+    ctx.add_tlc(r, "Relations over the diffusion temperature runs")
+    if r.violated or reached is None:
+        raise MachineryError("Relations validation failed (diffusion temperature)")
+    n = sum(1 for e in ev if e["e"] == "rel")
+    ctx.replayed += n
+    ctx.case("diffusion-temperature", nontrivial=n > 100, sample={"events": ev[1:3]})
+    if n <= 100 and ev[-1]["e"] != "exception":
+        raise MachineryError("vacuity: diffusion temperature runs produced %d relations" % n)
+    if reached[0]["l"] != len(ev) + 1:
+        ctx.violation("difftemp:trace-not-consumed", "diffusion temperature relations not consumed", {})
+    for f in reached[0]["fails"]:
+        ctx.violation("difftemp:%s" % f[0], "diffusion model: %s violated at %s (observed %s, stated %s)" % (f[0], f[1], f[2], f[3]), {"fail": f})
 
 
 if __name__ == "__main__":
